@@ -17,6 +17,9 @@ import (
 	"github.com/semihalev/sdns/internal/verif/vlib"
 	"github.com/semihalev/sdns/middleware"
 	"github.com/semihalev/sdns/middleware/failover"
+	"github.com/semihalev/sdns/middleware/forwarder"
+	"net/http"
+	"net/http/httptest"
 )
 
 type foPrimary struct{ rcode int }
@@ -130,6 +133,78 @@ func execFailover(f []string) vlib.Res {
 	tags := "nt,fo-primary"
 	if len(modes) > 0 && prc == dns.RcodeServerFailure && rd {
 		tags = "nt,fo-engaged"
+	}
+	return vlib.Res{Impl: fmt.Sprintf("n=1 id=%d rcode=%d a=%d", r.Id, r.Rcode, mark), Oracle: or, Tags: tags}
+}
+
+// ---- forwarder (forwarderservers configured): UDP, dead and DoH upstreams ----------
+
+func execForwarder(f []string) vlib.Res {
+	// fw run <id> <modes> <proto>; modes: sf | ok | nx | dead | dohdead | dohtls
+	id := uint16(vlib.Atoi(f[2]))
+	modes := strings.Split(f[3], ",")
+	cfg := &config.Config{}
+	cfg.Timeout.Duration = 700 * time.Millisecond
+	cfg.QueryTimeout.Duration = 5 * time.Second
+	var stops []func()
+	defer func() {
+		for _, s := range stops {
+			s()
+		}
+	}()
+	for i, m := range modes {
+		switch m {
+		case "dohdead":
+			addr, _ := startFallback(i, "dead")
+			cfg.ForwarderServers = append(cfg.ForwarderServers, "https://"+addr+"/dns-query")
+		case "dohtls":
+			// a DoH upstream whose exchange fails after the request was packed (certificate not trusted / HTTP 500)
+			ts := httptest.NewTLSServer(http.HandlerFunc(func(w http.ResponseWriter, _ *http.Request) { w.WriteHeader(500) }))
+			stops = append(stops, ts.Close)
+			cfg.ForwarderServers = append(cfg.ForwarderServers, ts.URL+"/dns-query")
+		default:
+			addr, stop := startFallback(i, m)
+			stops = append(stops, stop)
+			cfg.ForwarderServers = append(cfg.ForwarderServers, addr)
+		}
+	}
+	ch := middleware.NewChain([]middleware.Handler{forwarder.New(cfg)})
+	w := &capT{tcp: f[4] == "tcp", port: 8}
+	req := new(dns.Msg)
+	req.SetQuestion(fmt.Sprintf("q%d.fw.c10.", id), dns.TypeA)
+	req.Id = id
+	req.SetEdns0(1232, false)
+	ch.Reset(w, req)
+	ctx, cancel := context.WithTimeout(context.Background(), 8*time.Second)
+	defer cancel()
+	ch.Next(ctx)
+	var replies []*dns.Msg
+	replies = append(replies, w.msgs...)
+	for _, b := range w.writes {
+		m := new(dns.Msg)
+		if m.Unpack(b) == nil {
+			replies = append(replies, m)
+		}
+	}
+	if len(replies) != 1 {
+		return vlib.Res{Impl: fmt.Sprintf("n=%d", len(replies)), Oracle: fail("forwarder/reply-count", "%d replies written for one query", len(replies)), Tags: "nt"}
+	}
+	r := replies[0]
+	or := "ok"
+	if r.Id != id {
+		or = fail("forwarder/id-of-another-transaction", "the client's query carried id %d, the reply carries %d (upstreams: %s)", id, r.Id, f[3])
+	} else if len(r.Question) != 1 || !strings.EqualFold(r.Question[0].Name, req.Question[0].Name) {
+		or = fail("forwarder/question-differs", "%v", r.Question)
+	}
+	mark := 0
+	for _, rr := range r.Answer {
+		if a, ok := rr.(*dns.A); ok {
+			mark = int(a.A.To4()[3])
+		}
+	}
+	tags := "nt,fw"
+	if strings.Contains(f[3], "doh") {
+		tags += ",fw-doh-failed"
 	}
 	return vlib.Res{Impl: fmt.Sprintf("n=1 id=%d rcode=%d a=%d", r.Id, r.Rcode, mark), Oracle: or, Tags: tags}
 }
